@@ -1,5 +1,8 @@
 // Instrumented scenarios for the runtime selftest: small multi-threaded programs with a known
 // verdict (race / no race / deadlock / wrong value possible), run under the simulator.
+#include <semaphore.h>
+#include <pthread.h>
+
 #include <atomic>
 #include <condition_variable>
 #include <future>
@@ -37,7 +40,11 @@ struct Tagged {
 static std::atomic<Tagged> tagged;
 static std::atomic<std::shared_ptr<const int>> asp;
 
+static sem_t sem_ready;
+static pthread_spinlock_t spin_l;
 void reset() {
+  sem_init(&sem_ready, 0, 0);
+  pthread_spin_init(&spin_l, 0);
   plain_counter = 0;
   atomic_counter = 0;
   queue_items = 0;
@@ -358,6 +365,25 @@ void s_daemon(int t) {
   observed[t] = pool_results[t];
 }
 
+// 29: POSIX semaphore as a hand-off (post -> wait is a happens-before edge) and a spin lock as a mutex
+void s_sem_spin(int t) {
+  // sem_ready / spin_l are initialised by reset() before the run
+  if (t == 0) {
+    payload = 42;
+    sem_post(&sem_ready);
+    sem_post(&sem_ready);
+    sem_post(&sem_ready);
+  } else {
+    sem_wait(&sem_ready);
+    observed[t] = payload;  // ordered after the write by post -> wait
+  }
+  for (int i = 0; i < 3; ++i) {
+    pthread_spin_lock(&spin_l);
+    plain_counter += 1;
+    pthread_spin_unlock(&spin_l);
+  }
+}
+
 static const Scenario kScenarios[] = {
   {"plain_race", s_plain_race},       {"mutex", s_mutex},         {"atomic", s_atomic},
   {"publish_ok", s_publish_ok},       {"publish_relaxed", s_publish_relaxed},
@@ -371,7 +397,7 @@ static const Scenario kScenarios[] = {
   {"tagged_cas", s_tagged_cas},      {"spawn_join", s_spawn_join},
   {"spawn_race", s_spawn_race},       {"async", s_async},
   {"async_many", s_async_many},       {"detach", s_detach},
-  {"daemon", s_daemon},
+  {"daemon", s_daemon},               {"sem_spin", s_sem_spin},
 };
 const Scenario* scenarios() { return kScenarios; }
 int n_scenarios() { return (int)(sizeof kScenarios / sizeof kScenarios[0]); }
